@@ -1,0 +1,144 @@
+//go:build verif
+
+// Machine-checked contracts for the device-injector sample plugin (property C20).
+// Comment-only file, compiled only with the build tag "verif"; read by /verif/bin/nriverif.
+
+package main
+
+//@ pure k1(mainKey string, ctr string) = mainKey + "/container." + ctr
+//@ pure k2(mainKey string) = mainKey + "/pod"
+// is there an annotation for this container, and which one names it most specifically:
+// container scope before pod scope before the bare key
+//@ pure hasAnn(a map[string]string, mainKey string, ctr string) = has(a, k1(mainKey, ctr)) || has(a, k2(mainKey)) || has(a, mainKey)
+//@ pure selAnn(a map[string]string, mainKey string, ctr string) = (has(a, k1(mainKey, ctr)) ? a[k1(mainKey, ctr)] : (has(a, k2(mainKey)) ? a[k2(mainKey)] : a[mainKey]))
+
+//@ func getAnnotation
+//@   props C20
+//@   requires true
+//@   loop 1 invariant 0 <= idx + 1 && idx + 1 <= 3
+//@   loop 1 invariant (idx >= 0 ==> !has(annotations, k1(mainKey, ctr))) && (idx >= 1 ==> !has(annotations, k2(mainKey))) && (idx >= 2 ==> !has(annotations, mainKey))
+//@   ensures [none] !hasAnn(annotations, mainKey, ctr) ==> result == nil
+//@   ensures [sel]  hasAnn(annotations, mainKey, ctr) ==> result != nil && fresh(result) && strof(result) == selAnn(annotations, mainKey, ctr) && len(result) == len(selAnn(annotations, mainKey, ctr))
+
+//@ func device.toNRI
+//@   props C20
+//@   requires d != nil
+//@   ensures [dev]  result != nil && fresh(result) && result.Path == d.Path && result.Type == d.Type && result.Major == d.Major && result.Minor == d.Minor
+//@   ensures [mode] (d.FileMode == 0 ==> result.FileMode == nil) && (d.FileMode != 0 ==> result.FileMode != nil && result.FileMode.Value == d.FileMode)
+//@   ensures [uid]  (d.UID == 0 ==> result.Uid == nil) && (d.UID != 0 ==> result.Uid != nil && result.Uid.Value == d.UID)
+//@   ensures [gid]  (d.GID == 0 ==> result.Gid == nil) && (d.GID != 0 ==> result.Gid != nil && result.Gid.Value == d.GID)
+
+//@ func mount.toNRI
+//@   props C20
+//@   requires m != nil
+//@   ensures result != nil && fresh(result) && result.Source == m.Source && result.Destination == m.Destination && result.Type == m.Type && result.Options == m.Options
+
+// dump only writes log lines
+//@ func dump
+//@   props C20
+//@   trusted
+//@   ensures true
+
+//@ template parseT(F, KEY, CLS)
+//@ func $F
+//@   props C20
+//@   modifies calls("$CLS")
+//@   ensures [none] !hasAnn(annotations, $KEY, ctr) ==> result.1 == nil && len(result.0) == 0 && ncalls("$CLS") == old(ncalls("$CLS"))
+//@   ensures [dec]  hasAnn(annotations, $KEY, ctr) ==> ncalls("$CLS") == old(ncalls("$CLS")) + 1 && callarg("$CLS", old(ncalls("$CLS")), 0) == selAnn(annotations, $KEY, ctr)
+//@   ensures [err]  hasAnn(annotations, $KEY, ctr) && callret("$CLS", old(ncalls("$CLS")), 0) != nil ==> result.1 != nil && len(result.0) == 0
+//@   ensures [ok]   hasAnn(annotations, $KEY, ctr) && callret("$CLS", old(ncalls("$CLS")), 0) == nil ==> result.1 == nil && result.0 == callret("$CLS", old(ncalls("$CLS")), 1)
+//@ end
+//@ apply parseT(parseDevices, deviceKey, yaml.Unmarshal:[]main.device)
+//@ apply parseT(parseCDIDevices, cdiDeviceKey, yaml.Unmarshal:[]string)
+//@ apply parseT(parseMounts, mountKey, yaml.Unmarshal:[]main.mount)
+
+// what an injected device / mount must look like, given the decoded annotation entry
+//@ pure devIs(x *api.LinuxDevice, d device) = x != nil && x.Path == d.Path && x.Type == d.Type && x.Major == d.Major && x.Minor == d.Minor
+//@      && (d.FileMode == 0 ==> x.FileMode == nil) && (d.FileMode != 0 ==> x.FileMode != nil && x.FileMode.Value == d.FileMode)
+//@      && (d.UID == 0 ==> x.Uid == nil) && (d.UID != 0 ==> x.Uid != nil && x.Uid.Value == d.UID)
+//@      && (d.GID == 0 ==> x.Gid == nil) && (d.GID != 0 ==> x.Gid != nil && x.Gid.Value == d.GID)
+//@ pure mntIs(x *api.Mount, m mount) = x != nil && x.Source == m.Source && x.Destination == m.Destination && x.Type == m.Type && x.Options == m.Options
+
+//@ func injectDevices
+//@   props C20
+//@   requires pod != nil && ctr != nil && a != nil
+//@   modifies calls("yaml.Unmarshal:[]main.device"), a.Linux, a.Linux.Devices, elems(a.Linux.Devices)
+//@   ensures [none] !hasAnn(pod.Annotations, deviceKey, ctr.Name) ==> result == nil && a.Linux == old(a.Linux)
+//@   ensures [err]  hasAnn(pod.Annotations, deviceKey, ctr.Name) && callret("yaml.Unmarshal:[]main.device", old(ncalls("yaml.Unmarshal:[]main.device")), 0) != nil ==> result != nil && a.Linux == old(a.Linux)
+//@   ensures [same] a.Linux == old(a.Linux) && a.Linux != nil ==> len(a.Linux.Devices) >= old(len(a.Linux.Devices))
+//@   ensures [ok]   hasAnn(pod.Annotations, deviceKey, ctr.Name) && callret("yaml.Unmarshal:[]main.device", old(ncalls("yaml.Unmarshal:[]main.device")), 0) == nil ==> result == nil
+//@                  && (let dec = callret("yaml.Unmarshal:[]main.device", old(ncalls("yaml.Unmarshal:[]main.device")), 1) in
+//@                      len(a.Linux.Devices) == old(len(a.Linux.Devices)) + len(dec)
+//@                      && (forall i int :: 0 <= i && i < len(dec) ==> devIs(a.Linux.Devices[old(len(a.Linux.Devices)) + i], dec[i])))
+//@   ensures [pre]  forall i int :: 0 <= i && i < old(len(a.Linux.Devices)) ==> a.Linux.Devices[i] == old(a.Linux.Devices[i])
+//@   ensures [dec]  hasAnn(pod.Annotations, deviceKey, ctr.Name) ==> ncalls("yaml.Unmarshal:[]main.device") == old(ncalls("yaml.Unmarshal:[]main.device")) + 1 && callarg("yaml.Unmarshal:[]main.device", old(ncalls("yaml.Unmarshal:[]main.device")), 0) == selAnn(pod.Annotations, deviceKey, ctr.Name)
+//@   loop 1 invariant 0 <= idx + 1 && idx + 1 <= len(devices)
+//@   loop 1 invariant len(a.Linux.Devices) == old(len(a.Linux.Devices)) + idx + 1
+//@   loop 1 invariant forall i int :: 0 <= i && i <= idx ==> devIs(a.Linux.Devices[old(len(a.Linux.Devices)) + i], devices[i])
+//@   loop 1 invariant forall i int :: 0 <= i && i < old(len(a.Linux.Devices)) ==> a.Linux.Devices[i] == old(a.Linux.Devices[i])
+//@   loop 1 invariant (old(a.Linux) != nil ==> a.Linux == old(a.Linux)) && (idx >= 0 ==> a.Linux != nil) && (idx == 0 - 1 ==> a.Linux == old(a.Linux)) && (old(a.Linux) == nil && a.Linux != nil ==> fresh(a.Linux))
+//@   loop 1 invariant base(a.Linux.Devices) == old(base(a.Linux.Devices)) || fresh(a.Linux.Devices)
+//@   loop 1 invariant ncalls("yaml.Unmarshal:[]main.device") == pre(ncalls("yaml.Unmarshal:[]main.device"))
+
+//@ func injectMounts
+//@   props C20
+//@   requires pod != nil && ctr != nil && a != nil
+//@   modifies calls("yaml.Unmarshal:[]main.mount"), a.Mounts, elems(a.Mounts)
+//@   ensures [none] !hasAnn(pod.Annotations, mountKey, ctr.Name) ==> result == nil && a.Mounts == old(a.Mounts)
+//@   ensures [err]  hasAnn(pod.Annotations, mountKey, ctr.Name) && callret("yaml.Unmarshal:[]main.mount", old(ncalls("yaml.Unmarshal:[]main.mount")), 0) != nil ==> result != nil && a.Mounts == old(a.Mounts)
+//@   ensures [ok]   hasAnn(pod.Annotations, mountKey, ctr.Name) && callret("yaml.Unmarshal:[]main.mount", old(ncalls("yaml.Unmarshal:[]main.mount")), 0) == nil ==> result == nil
+//@                  && (let dec = callret("yaml.Unmarshal:[]main.mount", old(ncalls("yaml.Unmarshal:[]main.mount")), 1) in
+//@                      len(a.Mounts) == old(len(a.Mounts)) + len(dec)
+//@                      && (forall i int :: 0 <= i && i < len(dec) ==> mntIs(a.Mounts[old(len(a.Mounts)) + i], dec[i])))
+//@   ensures [pre]  forall i int :: 0 <= i && i < old(len(a.Mounts)) ==> a.Mounts[i] == old(a.Mounts[i])
+//@   ensures [dec]  hasAnn(pod.Annotations, mountKey, ctr.Name) ==> ncalls("yaml.Unmarshal:[]main.mount") == old(ncalls("yaml.Unmarshal:[]main.mount")) + 1 && callarg("yaml.Unmarshal:[]main.mount", old(ncalls("yaml.Unmarshal:[]main.mount")), 0) == selAnn(pod.Annotations, mountKey, ctr.Name)
+//@   loop 1 invariant 0 <= idx + 1 && idx + 1 <= len(mounts)
+//@   loop 1 invariant len(a.Mounts) == old(len(a.Mounts)) + idx + 1 && (idx == 0 - 1 ==> a.Mounts == old(a.Mounts))
+//@   loop 1 invariant forall i int :: 0 <= i && i <= idx ==> mntIs(a.Mounts[old(len(a.Mounts)) + i], mounts[i])
+//@   loop 1 invariant forall i int :: 0 <= i && i < old(len(a.Mounts)) ==> a.Mounts[i] == old(a.Mounts[i])
+//@   loop 1 invariant base(a.Mounts) == old(base(a.Mounts)) || fresh(a.Mounts)
+//@   loop 1 invariant ncalls("yaml.Unmarshal:[]main.mount") == pre(ncalls("yaml.Unmarshal:[]main.mount"))
+
+//@ func injectCDIDevices
+//@   props C20
+//@   requires pod != nil && ctr != nil && a != nil
+//@   modifies calls("yaml.Unmarshal:[]string"), a.CDIDevices, elems(a.CDIDevices)
+//@   ensures [none] !hasAnn(pod.Annotations, cdiDeviceKey, ctr.Name) ==> result == nil && a.CDIDevices == old(a.CDIDevices)
+//@   ensures [err]  hasAnn(pod.Annotations, cdiDeviceKey, ctr.Name) && callret("yaml.Unmarshal:[]string", old(ncalls("yaml.Unmarshal:[]string")), 0) != nil ==> result != nil && a.CDIDevices == old(a.CDIDevices)
+//@   ensures [ok]   hasAnn(pod.Annotations, cdiDeviceKey, ctr.Name) && callret("yaml.Unmarshal:[]string", old(ncalls("yaml.Unmarshal:[]string")), 0) == nil ==> result == nil
+//@                  && (let dec = callret("yaml.Unmarshal:[]string", old(ncalls("yaml.Unmarshal:[]string")), 1) in
+//@                      len(a.CDIDevices) == old(len(a.CDIDevices)) + len(dec)
+//@                      && (forall i int :: 0 <= i && i < len(dec) ==> a.CDIDevices[old(len(a.CDIDevices)) + i] != nil && a.CDIDevices[old(len(a.CDIDevices)) + i].Name == dec[i]))
+//@   ensures [pre]  forall i int :: 0 <= i && i < old(len(a.CDIDevices)) ==> a.CDIDevices[i] == old(a.CDIDevices[i])
+//@   ensures [dec]  hasAnn(pod.Annotations, cdiDeviceKey, ctr.Name) ==> ncalls("yaml.Unmarshal:[]string") == old(ncalls("yaml.Unmarshal:[]string")) + 1 && callarg("yaml.Unmarshal:[]string", old(ncalls("yaml.Unmarshal:[]string")), 0) == selAnn(pod.Annotations, cdiDeviceKey, ctr.Name)
+//@   loop 1 invariant 0 <= idx + 1 && idx + 1 <= len(devices)
+//@   loop 1 invariant len(a.CDIDevices) == old(len(a.CDIDevices)) + idx + 1 && (idx == 0 - 1 ==> a.CDIDevices == old(a.CDIDevices))
+//@   loop 1 invariant forall i int :: 0 <= i && i <= idx ==> a.CDIDevices[old(len(a.CDIDevices)) + i] != nil && a.CDIDevices[old(len(a.CDIDevices)) + i].Name == devices[i]
+//@   loop 1 invariant forall i int :: 0 <= i && i < old(len(a.CDIDevices)) ==> a.CDIDevices[i] == old(a.CDIDevices[i])
+//@   loop 1 invariant base(a.CDIDevices) == old(base(a.CDIDevices)) || fresh(a.CDIDevices)
+//@   loop 1 invariant ncalls("yaml.Unmarshal:[]string") == pre(ncalls("yaml.Unmarshal:[]string"))
+
+// the request handler: the three annotations are looked up for this container only; any
+// decoding error fails the request and no adjustment at all is returned
+//@ func plugin.CreateContainer
+//@   props C20
+//@   requires pod != nil && ctr != nil
+//@   modifies calls("yaml.Unmarshal:[]main.device"), calls("yaml.Unmarshal:[]string"), calls("yaml.Unmarshal:[]main.mount")
+//@   ensures [upd]   len(result.1) == 0
+//@   ensures [fail]  result.2 != nil ==> result.0 == nil
+//@   ensures [ok]    result.2 == nil ==> result.0 != nil && fresh(result.0)
+//@   ensures [none]  !hasAnn(pod.Annotations, deviceKey, ctr.Name) && !hasAnn(pod.Annotations, cdiDeviceKey, ctr.Name) && !hasAnn(pod.Annotations, mountKey, ctr.Name) ==> result.2 == nil
+//@                   && result.0.Linux == nil && len(result.0.Mounts) == 0 && len(result.0.CDIDevices) == 0
+//@   ensures [deverr] hasAnn(pod.Annotations, deviceKey, ctr.Name) && callret("yaml.Unmarshal:[]main.device", old(ncalls("yaml.Unmarshal:[]main.device")), 0) != nil ==> result.2 != nil
+//@   ensures [devs]  result.2 == nil && hasAnn(pod.Annotations, deviceKey, ctr.Name) ==> callarg("yaml.Unmarshal:[]main.device", old(ncalls("yaml.Unmarshal:[]main.device")), 0) == selAnn(pod.Annotations, deviceKey, ctr.Name)
+//@                   && (let dec = callret("yaml.Unmarshal:[]main.device", old(ncalls("yaml.Unmarshal:[]main.device")), 1) in
+//@                       len(result.0.Linux.Devices) == len(dec) && (forall i int :: 0 <= i && i < len(dec) ==> devIs(result.0.Linux.Devices[i], dec[i])))
+//@   ensures [nodev] result.2 == nil && !hasAnn(pod.Annotations, deviceKey, ctr.Name) ==> result.0.Linux == nil
+//@   ensures [mnts]  result.2 == nil && hasAnn(pod.Annotations, mountKey, ctr.Name) ==> callarg("yaml.Unmarshal:[]main.mount", old(ncalls("yaml.Unmarshal:[]main.mount")), 0) == selAnn(pod.Annotations, mountKey, ctr.Name)
+//@                   && (let dec = callret("yaml.Unmarshal:[]main.mount", old(ncalls("yaml.Unmarshal:[]main.mount")), 1) in
+//@                       len(result.0.Mounts) == len(dec) && (forall i int :: 0 <= i && i < len(dec) ==> mntIs(result.0.Mounts[i], dec[i])))
+//@   ensures [nomnt] result.2 == nil && !hasAnn(pod.Annotations, mountKey, ctr.Name) ==> len(result.0.Mounts) == 0
+//@   ensures [cdis]  result.2 == nil && hasAnn(pod.Annotations, cdiDeviceKey, ctr.Name) ==> callarg("yaml.Unmarshal:[]string", old(ncalls("yaml.Unmarshal:[]string")), 0) == selAnn(pod.Annotations, cdiDeviceKey, ctr.Name)
+//@                   && (let dec = callret("yaml.Unmarshal:[]string", old(ncalls("yaml.Unmarshal:[]string")), 1) in
+//@                       len(result.0.CDIDevices) == len(dec) && (forall i int :: 0 <= i && i < len(dec) ==> result.0.CDIDevices[i] != nil && result.0.CDIDevices[i].Name == dec[i]))
+//@   ensures [nocdi] result.2 == nil && !hasAnn(pod.Annotations, cdiDeviceKey, ctr.Name) ==> len(result.0.CDIDevices) == 0
